@@ -8,6 +8,7 @@ import (
 	"errors"
 	"fmt"
 	"sort"
+	"sync"
 	"time"
 
 	"github.com/panjf2000/ants/v2"
@@ -29,13 +30,14 @@ func vRandomString(n int) string {
 
 var vRandN int
 
-// vPoolInvoke: under gosym a pool task runs to completion at the Invoke call
-// (natively the real ants pool runs it in a goroutine).
+// vPoolInvoke: under gosym a pool task is a goroutine like any other: it runs to
+// completion at the Invoke call (eager schedule) or is queued until the caller
+// blocks (lazy schedule); natively the real ants pool runs it.
 //
 //verif:stub (*github.com/panjf2000/ants/v2.PoolWithFunc).Invoke
 func vPoolInvoke(_ *ants.PoolWithFunc, task interface{}) error {
 	if f, ok := task.(func()); ok {
-		f()
+		go f()
 	}
 	return nil
 }
@@ -50,6 +52,7 @@ type vStore struct {
 	getNodeN              int
 	lockCalls, lockFailAt int     // the lockFailAt-th acquisition fails (0: none)
 	w                     *vWorld // fault injection / ledger (nil in the pure selection harnesses)
+	blocking              bool    // locks really exclude each other (concurrent harnesses)
 }
 
 type vLock struct {
@@ -58,6 +61,25 @@ type vLock struct {
 }
 
 func (l *vLock) Lock(ctx context.Context) (context.Context, error) {
+	vYield()
+	if l.st.blocking {
+		// concurrent harnesses: a real lock - wait until the key is free
+		for {
+			vBlockUntil(func() bool { // (a pure test: the scheduler may evaluate it any number of times)
+				vMu.Lock()
+				defer vMu.Unlock()
+				return !l.st.held[l.key]
+			})
+			vMu.Lock()
+			if !l.st.held[l.key] { // natively another goroutine may have been faster
+				l.st.held[l.key] = true
+				l.st.trace = append(l.st.trace, "L:"+l.key)
+				vMu.Unlock()
+				return ctx, nil
+			}
+			vMu.Unlock()
+		}
+	}
 	l.st.lockCalls++
 	if l.st.lockCalls == l.st.lockFailAt {
 		return ctx, vErrLock
@@ -68,9 +90,23 @@ func (l *vLock) Lock(ctx context.Context) (context.Context, error) {
 }
 func (l *vLock) TryLock(ctx context.Context) (context.Context, error) { return l.Lock(ctx) }
 func (l *vLock) Unlock(context.Context) error {
+	vYield()
+	vMu.Lock()
+	defer vMu.Unlock()
 	l.st.trace = append(l.st.trace, "U:"+l.key)
 	delete(l.st.held, l.key)
 	return nil
+}
+
+// vMu makes the model's methods atomic in native replays, where pool tasks are
+// real goroutines (under gosym's cooperative scheduler they are atomic anyway);
+// vGuard is also the scheduling point in front of every external call.
+var vMu sync.Mutex
+
+func vGuard() func() {
+	vYield()
+	vMu.Lock()
+	return vMu.Unlock
 }
 
 func (s *vStore) CreateLock(key string, _ time.Duration) (lock.DistributedLock, error) {
@@ -78,6 +114,7 @@ func (s *vStore) CreateLock(key string, _ time.Duration) (lock.DistributedLock, 
 }
 
 func (s *vStore) GetNode(_ context.Context, name string) (*types.Node, error) {
+	defer vGuard()()
 	s.getNodeN++
 	if s.w != nil && s.w.fault("store.GetNode") {
 		return nil, vErrInjected
@@ -90,6 +127,7 @@ func (s *vStore) GetNode(_ context.Context, name string) (*types.Node, error) {
 }
 
 func (s *vStore) GetNodesByPod(_ context.Context, f *types.NodeFilter, _ ...store.Option) ([]*types.Node, error) {
+	defer vGuard()()
 	var out []*types.Node
 	for _, name := range s.podOrder {
 		n := s.nodes[name]
@@ -104,6 +142,7 @@ func (s *vStore) GetNodesByPod(_ context.Context, f *types.NodeFilter, _ ...stor
 
 // ListNodeWorkloads serves RemoveNode's emptiness check (and the skipped remap).
 func (s *vStore) ListNodeWorkloads(_ context.Context, node string, _ map[string]string) ([]*types.Workload, error) {
+	defer vGuard()()
 	var ids []string
 	for id, wl := range s.workloads {
 		if wl.Nodename == node {
@@ -119,6 +158,7 @@ func (s *vStore) ListNodeWorkloads(_ context.Context, node string, _ map[string]
 }
 
 func (s *vStore) GetWorkloads(_ context.Context, ids []string) ([]*types.Workload, error) {
+	defer vGuard()()
 	if s.w != nil && s.w.fault("store.GetWorkloads") {
 		return nil, vErrInjected
 	}
